@@ -66,7 +66,10 @@ Definition c18_ok (c : case) : bool :=
   forallb (fun i => ranked_b (rk_of (c_rank c)) [] (project_thread i (c_lock_events c))) (seq 0 (c_nthreads c))
   && c_completed c
   (* ... nor lose work: every accepted change is present exactly once, in the log and in the views *)
-  && c_versions_consecutive c && c_none_lost_or_doubled c.
+  && c_versions_consecutive c && c_none_lost_or_doubled c
+  (* ... and each entity - a CA, a store, the files of the repository - is only ever mutated by the thread that
+     holds its lock, so that its mutations are those of a one-at-a-time execution ([per_entity_serial]) *)
+  && well_locked [] (c_trace c).
 
 Definition c07_ok (c : case) : bool :=
   well_locked [] (c_trace c) && c_versions_consecutive c && c_none_lost_or_doubled c && c_history_complete c.
